@@ -798,17 +798,15 @@ class Model:
         #normalize the arg
 
         normalized_arg= fp.normalize(arg, self.dt, self.starttime, max(fp.scale(self.starttime), fp.scale(self.dt)))
-        try:
-            mymemo = self.memo[equation]
-        except:
-            # In case the equation does not exist in memo
-            self.memo[equation] = {}
-            mymemo = self.memo[equation]
+        # In case the equation does not exist in memo, create its memo exactly once
+        mymemo = self.memo.setdefault(equation, {})
         if normalized_arg in mymemo.keys():
             return mymemo[normalized_arg]
         else:
             result = self.equations[equation](normalized_arg)
-            mymemo[normalized_arg] = result
+            # the equations are simulated by one thread per equation: keep the value that was stored
+            # first, so that every caller sees the same value (matters for stochastic equations)
+            result = mymemo.setdefault(normalized_arg, result)
 
         return result
 
